@@ -854,3 +854,15 @@ static void run_c06_ytrace(void)
 SIM_WORKLOAD("C11", "yield_to-race", run_c11_ytrace, 4)
 SIM_WORKLOAD("C02", "yield_to-race", run_c02_ytrace, 4)
 SIM_WORKLOAD("C06", "yield_to-race", run_c06_ytrace, 3)
+/* C01: whoever wins the race, every target runs exactly once and nothing queued behind it is lost;
+ * C14: the race through a legacy user-defined pool whose remove may be refused */
+static void run_c01_ytrace(void)
+{
+    run_yield_to_race(0);
+}
+static void run_c14_ytrace(void)
+{
+    run_yield_to_race(0);
+}
+SIM_WORKLOAD("C01", "yield_to-race", run_c01_ytrace, 2)
+SIM_WORKLOAD("C14", "yield_to-race", run_c14_ytrace, 2)
